@@ -1,11 +1,13 @@
 #!/bin/bash
-# re-verifies every kept seeded change against a snapshot: the checks named in meta.json must report a VIOLATION
+# re-verifies every kept seeded change against a snapshot: at least one of the checks named in meta.json
+# must report a VIOLATION (all of them are run)
 cd /verif
 fail=0
 for d in seeded/*/; do
   n=$(basename $d)
-  checks=$(python3 -c "import json;print(' '.join(json.load(open('$d/meta.json'))['checks'][:1]))")
+  checks=$(python3 -c "import json;print(' '.join(json.load(open('$d/meta.json'))['checks']))")
   out=$(tools/seedtest.sh /verif/$d $checks 2>&1)
-  if echo "$out" | grep -q "exit=1  [1-9]"; then echo "$n: detected by $checks"; else echo "$n: NOT DETECTED by $checks"; echo "$out" | tail -5; fail=1; fi
+  hit=$(echo "$out" | grep -E "^check C[0-9]+ exit=1  [1-9]" | awk '{print $2}' | tr '\n' ' ')
+  if [ -n "$hit" ]; then echo "$n: detected by $hit(ran: $checks)"; else echo "$n: NOT DETECTED (ran: $checks)"; echo "$out" | tail -6; fail=1; fi
 done
 exit $fail
